@@ -340,6 +340,10 @@ func runC03(c *Ctx) {
 	checkOpaqueUDT(c, "R03g", []string{pSqlite})
 	c.Rule("R03k", ruleTextNoBackslash, 1)
 	checkNoBackslashInSqlite(c, "R03k")
+	c.Rule("R03p", ruleTextExclusiveArms, 0)
+	checkExclusiveArms(c, "R03p")
+	c.Rule("R03o", ruleTextAutoincShapes, 2)
+	checkAutoincShapes(c, "R03o")
 	c.Rule("R03n", ruleTextLikeEscape, 0)
 	checkLikeEscape(c, "R03n")
 	c.Rule("R03m", ruleTextDynRegex, 0)
